@@ -3,7 +3,7 @@
 # (suite passes with the change, demo fails with it and passes without), then run our check(s) against /repo with the
 # patch applied, undo it, and store the artefacts under seeded/<PID>-<k>/.
 pid=$1; k=$2; shift 2; checks=${@:-$pid}
-wt=/tmp/mut_$pid; out=/verif/seeded/$pid-$k
+wt=${WT:-/tmp/mut_$pid}; out=/verif/seeded/${TAG:-$pid-$k}
 export OMP_NUM_THREADS=1 OPENBLAS_NUM_THREADS=1 MKL_NUM_THREADS=1
 set -u
 cd $wt || exit 1
